@@ -173,8 +173,19 @@ class Spy:
         self.other = 0
 
 
-def run_wsgi(path, mapping, endpoint, wrapped, spy):
+def run_wsgi(path, mapping, endpoint, wrapped, spy, appbox=None):
     import engineio
+    if appbox is not None and 'app' in appbox:
+        # the gateway object of this combination, as in a deployment; its
+        # downstream spies report to the current request's counters
+        appbox['spy'][0] = spy
+        return _call_wsgi(appbox['app'], path)
+    holder = [spy]
+    spy = type('SpyProxy', (), {
+        'engine': property(lambda self: holder[0].engine,
+                           lambda self, v: setattr(holder[0], 'engine', v)),
+        'other': property(lambda self: holder[0].other,
+                          lambda self, v: setattr(holder[0], 'other', v))})()
 
     class Eng:
         def handle_request(self, environ, start_response):
@@ -188,6 +199,12 @@ def run_wsgi(path, mapping, endpoint, wrapped, spy):
         return [b'OTHER']
     app = engineio.WSGIApp(Eng(), other if wrapped else None,
                            static_files=mapping, engineio_path=endpoint)
+    if appbox is not None:
+        appbox['app'], appbox['spy'] = app, holder
+    return _call_wsgi(app, path)
+
+
+def _call_wsgi(app, path):
     res = {}
 
     def sr(status, headers, exc_info=None):
@@ -204,8 +221,18 @@ def run_wsgi(path, mapping, endpoint, wrapped, spy):
     return res
 
 
-def run_asgi(path, mapping, endpoint, wrapped, spy, root_path=None):
+def run_asgi(path, mapping, endpoint, wrapped, spy, root_path=None,
+             appbox=None):
     import engineio
+    if appbox is not None and 'app' in appbox:
+        appbox['spy'][0] = spy
+        return _call_asgi(appbox['app'], path, root_path)
+    holder = [spy]
+    spy = type('SpyProxy', (), {
+        'engine': property(lambda self: holder[0].engine,
+                           lambda self, v: setattr(holder[0], 'engine', v)),
+        'other': property(lambda self: holder[0].other,
+                          lambda self, v: setattr(holder[0], 'other', v))})()
 
     class Eng:
         async def handle_request(self, scope, receive, send):
@@ -221,6 +248,12 @@ def run_asgi(path, mapping, endpoint, wrapped, spy, root_path=None):
         await send({'type': 'http.response.body', 'body': b'OTHER'})
     app = engineio.ASGIApp(Eng(), other if wrapped else None,
                            static_files=mapping, engineio_path=endpoint)
+    if appbox is not None:
+        appbox['app'], appbox['spy'] = app, holder
+    return _call_asgi(app, path, root_path)
+
+
+def _call_asgi(app, path, root_path):
     res = {'body': b''}
 
     async def receive():
@@ -251,7 +284,7 @@ def run_asgi(path, mapping, endpoint, wrapped, spy, root_path=None):
 
 
 def check_path(rec, root, gateway, mname, mapping, endpoint, wrapped, path,
-               case, live=None):
+               case, live=None, appbox=None):
     """`mapping` is the pristine configuration (the reference reads it);
     `live` is the configuration object the gateway is given - the same one
     for every request of a combination, as in a deployment, so that whatever
@@ -263,10 +296,10 @@ def check_path(rec, root, gateway, mname, mapping, endpoint, wrapped, path,
     try:
         if gateway == 'wsgi':
             res = run_wsgi(path, mapping if live is None else live, endpoint,
-                           wrapped, spy)
+                           wrapped, spy, appbox)
         else:
             res = run_asgi(path, mapping if live is None else live, endpoint,
-                           wrapped, spy, case.get('root_path'))
+                           wrapped, spy, case.get('root_path'), appbox)
     finally:
         _watch[0] = None
     opened = [os.path.realpath(p) for p in _opened]
@@ -533,11 +566,12 @@ def run_shard(spec):
                       '/static/./a.txt', '//static/a.txt', '/staticx/a.txt',
                       '/static/noext', '/static/app.js']
             live = copy.deepcopy(maps[mname])
+            appbox = {}
             rng.shuffle(paths)
             for ip, p in enumerate(paths):
                 nv, lv = rec.nviolations, len(rec.violations)
                 out = check_path(rec, root, gw, mname, maps[mname], ep,
-                                 wrapped, p, case, live=live)
+                                 wrapped, p, case, live=live, appbox=appbox)
                 if rec.nviolations > nv:
                     # does it depend on the requests served before it?
                     alone = Rec()
@@ -551,6 +585,7 @@ def run_shard(spec):
                                     '%r) ' % (live,))[:400] + v['msg']
                         v['case'] = dict(v['case'], prior=paths[:ip])
                     live = copy.deepcopy(maps[mname])
+                    appbox = {}
                 shape = '/'.join('N' if s not in ('', '.', '..', 'static',
                                                   'engine.io')
                                  else s for s in p.split('/')[1:4])
@@ -589,13 +624,14 @@ def replay(case):
     try:
         maps = mappings(root)
         live = copy.deepcopy(maps[case['mapping']])
+        appbox = {}
         for p in case.get('prior', []):
             check_path(Rec(), root, case['gateway'], case['mapping'],
                        maps[case['mapping']], case['endpoint'],
-                       case['wrapped'], p, case, live=live)
+                       case['wrapped'], p, case, live=live, appbox=appbox)
         check_path(rec, root, case['gateway'], case['mapping'],
                    maps[case['mapping']], case['endpoint'], case['wrapped'],
-                   case['path'], case, live=live)
+                   case['path'], case, live=live, appbox=appbox)
     finally:
         shutil.rmtree(root, ignore_errors=True)
     return rec.violations
